@@ -156,12 +156,13 @@ def run(chk):
 
     # ---- R11.3 call-site binding
     callsites(chk, repo, it, ms, md, S, D)
+    oop_callsites(chk, repo, ms, md, S, D)
     # ---- R11.7 the loop closed through the real mode summation
     closed_loop(chk, repo, ms, md, S, D)
     from .common import inplace_lint
     inplace_lint(chk, repo, 'R11.8', ['TidalPy/dynamics/single_dissipation.py', 'TidalPy/dynamics/dual_dissipation.py', 'TidalPy/toolbox/quick_tides.py', 'TidalPy/tides/modes/mode_manipulation.py', 'TidalPy/utilities/conversions/conversions.py'])
     chk.floor('R11.8', 5)
-    chk.floor('R11.1', 4 + 18); chk.floor('R11.2', 8); chk.floor('R11.4', 4); chk.floor('R11.6', 7); chk.floor('R11.3', 4); chk.floor('R11.7', 12)
+    chk.floor('R11.1', 4 + 18); chk.floor('R11.2', 8); chk.floor('R11.4', 4); chk.floor('R11.6', 7); chk.floor('R11.3', 8); chk.floor('R11.7', 12)
     chk.assume('masses, a, n, C > 0; 0 < e < 1 on the generic region; n^2 a^3 = G(m1+m2)')
 
 
@@ -396,3 +397,51 @@ def closed_loop(chk, repo, ms, md, S, D):
                     chk.ob('R11.7', f'dual, {cfg}: dL_orb/dt + sum C dspin/dt == 0 (zero obliquity)', ok,
                            '' if ok else 'angular momentum is not conserved: ' + d.describe(r, X.ZERO), where_dl, method='GF(p^2) PIT')
         chk.note_analysed('mode-sum configurations', f'N={N} lmax={L} obliquity={"on" if obl else "off"}')
+
+
+# ---------------------------------------------------------------------------------------------- R11.3 (OOP call sites)
+def oop_callsites(chk, repo, ms, md, S, D):
+    """PhysicsOrbit.calculate_orbital_derivatives (three branches: dual, host only, body only) and TidalWorld.calc_spin_derivative, interpreted on the abstract
+    object graph of C13 with free potential derivatives: the stored rates must be those of the dynamics functions with (dissipating body mass, its dUdM, dUdw, the
+    other body's mass) in that order, dn/dt = -(3/2)(n/a) da/dt, and dspin/dt = host mass * dUdO / C."""
+    from . import c13
+    it0 = Interp(repo)
+    d = X.Decider(seed=chk.seed + 13, k=2, positive=[1 - X.atom('e0', 'pos') * X.atom('e0', 'pos'), X.atom('M_host', 'pos') + X.atom('M_world', 'pos')], mask_hook=eps_mask)
+    mo = repo.by_path('TidalPy/structures/orbit/physics.py'); mw = repo.by_path('TidalPy/structures/world_types/tidal.py')
+    for scen in ('body only', 'host only', 'dual'):
+        it = c13.make_interp(repo)
+        st = c13.state_atoms('0')
+        s = c13.build(repo, it, st, False, True)
+        c13.full_init(it, s)
+        a = s.orbit.attrs['_semi_major_axes'][1]; n = s.orbit.attrs['_orbital_frequencies'][1]; e = s.orbit.attrs['_eccentricities'][1]
+        wd = {k: X.atom(f'world_{k}') for k in ('dUdM', 'dUdw', 'dUdO')}; hd = {k: X.atom(f'host_{k}') for k in ('dUdM', 'dUdw', 'dUdO')}
+        ta = s.tides.attrs
+        if scen in ('body only', 'dual'):
+            ta['_dUdM'], ta['_dUdw'], ta['_dUdO'] = wd['dUdM'], wd['dUdw'], wd['dUdO']
+        else:
+            ta['_dUdM'] = ta['_dUdw'] = ta['_dUdO'] = None
+        if scen in ('host only', 'dual'):
+            s.host.attrs.update({'tides_on': True, 'tides': Opaque('host tides'), 'dUdM': hd['dUdM'], 'dUdw': hd['dUdw'], 'dUdO': hd['dUdO']})
+        c13.call(it, s.orbit, 'calculate_orbital_derivatives', s.world)
+        da = s.orbit.attrs['_semi_major_axis_time_derivatives'][1]; de = s.orbit.attrs['_eccentricity_time_derivatives'][1]; dn = s.orbit.attrs['_orbital_motion_time_derivatives'][1]
+        Mh, Mw = st['M_host'], st['M_world']
+        if scen == 'body only':
+            ref = it0.call(ms, S['semia_eccen_derivatives'], [a, n, e, Mw, wd['dUdM'], wd['dUdw'], Mh])
+        elif scen == 'host only':
+            ref = it0.call(ms, S['semia_eccen_derivatives'], [a, n, e, Mh, hd['dUdM'], hd['dUdw'], Mw])
+        else:
+            ref = it0.call(md, D['semia_eccen_derivatives'], [a, n, e, Mh, hd['dUdM'], hd['dUdw'], Mw, wd['dUdM'], wd['dUdw']])
+        ok = all(isinstance(v, X.Node) for v in (da, de, dn)) and d.equal(da, ref[0]) and d.equal(de, ref[1]) and d.equal(dn, -X.const(3) / 2 * (n / a) * ref[0])
+        chk.ob('R11.3', f'PhysicsOrbit.calculate_orbital_derivatives ({scen} dissipating): stored da/dt, de/dt == dynamics functions with (body mass, its dUdM, dUdw, other mass) in order; dn/dt == -(3/2)(n/a) da/dt', ok,
+               'stored rates differ from the dynamics functions evaluated with the bodies\' own potential derivatives', mo.rel(), key=f'R11.3|calculate_orbital_derivatives|{scen}', method='abstract object graph + GF(p^2) PIT')
+    # spin derivative
+    it = c13.make_interp(repo)
+    st = c13.state_atoms('0')
+    s = c13.build(repo, it, st, False, True)
+    c13.full_init(it, s)
+    dO = X.atom('world_dUdO'); s.tides.attrs['_dUdO'] = dO
+    r = c13.call(it, s.world, 'calc_spin_derivative')
+    ref = it0.call(ms, S['spin_rate_derivative'], [dO, st['C'], st['M_host']])
+    ok = isinstance(r, X.Node) and d.equal(r, ref) and d.equal(s.world.attrs['_tidal_polar_torque'], st['M_host'] * dO)
+    chk.ob('R11.3', 'TidalWorld.calc_spin_derivative == spin_rate_derivative(dUdO, C, host mass); polar torque == host mass * dUdO', ok, 'differs', mw.rel(), key='R11.3|calc_spin_derivative',
+           method='abstract object graph + GF(p^2) PIT')
